@@ -104,6 +104,8 @@ func (s *vfC19HS) NewClient(host string) vfc19.Client {
 	return &vfC19Client{&handshake.PeerIDAuthHandshakeClient{Hostname: host, PrivKey: s.w.Keys.Priv["kC"]}}
 }
 
+func (c *vfC19Client) Coarse() bool { return false }
+
 func (c *vfC19Client) Start(initiate bool) (string, error) {
 	if !initiate {
 		return "", nil
